@@ -242,6 +242,9 @@ def run(chk):
         chk.ob("R7.strict", vb.path, "valid() == (now < expiry), strictly, with now from the system clock", ok,
                f"valid() computes {panics.short_desc(d)}: a session created with lifetime 0 must be born expired")
     db_lookup(chk, prog)
+    whole_password_and_expiry(chk, prog)
+    from . import c02
+    c02.cookies(chk, prog, "A")
 
 
 EQ = r"^std::cmp::PartialEq::eq$|as std::cmp::PartialEq(<[^>]*>)?>::eq$"
@@ -322,6 +325,56 @@ def implies_equality(prog, body, l, side_a, side_b, depth=0):
             continue
         return False, f"the match is decided by {core.short(callee)}, which is not a full string equality (a prefix / length-blind / hashed comparison accepts tokens that were never issued)"
     return True, ""
+
+
+def whole_password_and_expiry(chk, prog):
+    """R6.whole_password: Argon2 hashes / verifies exactly the bytes of the password that was passed in (no truncation, folding or trimming);
+    R7.expiry_from_now: a session's expiry is always `now + lifetime`, at creation and at refresh (never built on the previous expiry)."""
+    conv = r"(::|>::)(as_ref|as_bytes|as_str|deref|borrow|as_slice|clone|to_owned|into|from)$"
+    n = 0
+    for fn, rx in (("humphrey_auth::user::User::create", r"PasswordHasher::hash_password$"), ("humphrey_auth::user::User::verify", r"PasswordVerifier::verify_password$")):
+        b = prog.bodies.get(fn)
+        if not b:
+            continue
+        for blk, t in b.calls_to(rx):
+            n += 1
+            d = describe(prog, b, t["args"][1])
+            from_param = desc_contains(d, lambda y: y[0] == "param" and y[2] == "password")
+            odd = sorted(set(c[1] for c in core.desc_calls(d) if not core.re.search(conv, c[1])))
+            sliced = desc_contains(d, lambda y: y[0] in ("index",) or (y[0] == "call" and core.re.search(r"Index(<[^>]*>)?(>)?::index$|::get$|::split_at$|::chunks", y[1]) is not None))
+            chk.ob("R6.whole_password", fn, "the bytes handed to Argon2 are the whole password argument (reference conversions only)", from_param and not odd and not sliced,
+                   f"password bytes = {panics.short_desc(d)}; other operations: {[core.short(x) for x in odd]}: two different passwords can then hash alike", where=b.where(blk))
+    chk.floor("Argon2 hash / verify call sites", n, 2)
+    st = prog.structs.get("humphrey_auth::session::Session", {}).get("fields", [])
+    ei = next((i for i, x in enumerate(st) if x["name"] == "expiry"), None)
+    m = 0
+    for fn in ("humphrey_auth::session::Session::refresh", "humphrey_auth::session::Session::create_with_lifetime"):
+        b = prog.bodies.get(fn)
+        if not b or ei is None:
+            continue
+        vals = []
+        for blk_i, blk in enumerate(b.blocks):
+            for stt in blk["stmts"]:
+                if "pl" in stt and [e[1] for e in stt["pl"]["p"] if e[0] == "f"] == [ei]:
+                    vals.append((blk_i, describe(prog, b, stt["rv"]["o"]) if stt["rv"]["k"] == "use" else core.describe_rv(prog, b, stt["rv"])))
+                rv = stt.get("rv")
+                if rv and rv.get("k") == "agg" and rv.get("adt", "").endswith("session::Session"):
+                    vals.append((blk_i, describe(prog, b, rv["ops"][rv["fields"].index("expiry")])))
+        for blk_i, d in vals:
+            m += 1
+            d = panics._strip(d)
+            ok = False
+            if isinstance(d, tuple) and d[0] == "field" and isinstance(d[1], tuple) and d[1][0] == "bin" and d[1][1] in ("AddWithOverflow", "Add"):
+                l, r = panics._strip(d[1][2]), panics._strip(d[1][3])
+                def is_now(x):
+                    return isinstance(x, tuple) and x[0] == "call" and x[1].endswith("as_secs") and desc_contains(x, lambda y: y[0] == "call" and y[1].endswith("::elapsed")) and \
+                        not desc_contains(x, lambda y: y[0] == "field" or (y[0] == "call" and core.re.search(r"::(max|min|saturating_\w+)$", y[1]) is not None))
+                def is_life(x):
+                    return isinstance(x, tuple) and x[0] == "param" and x[2] == "lifetime"
+                ok = (is_now(l) and is_life(r)) or (is_now(r) and is_life(l))
+            chk.ob("R7.expiry_from_now", fn, "expiry = (seconds since the epoch, now) + lifetime", ok,
+                   f"expiry = {panics.short_desc(d)}: a refresh that builds on the old expiry lets a token outlive now + lifetime", where=b.where(blk_i))
+    chk.floor("Session expiry assignments", m, 2)
 
 
 def db_lookup(chk, prog):
